@@ -5,7 +5,7 @@ import io
 
 import numpy as np
 
-from .. import gen, monitors_tgedmd, monitors_transform, monitors_basis
+from .. import gen, probe, monitors_tgedmd, monitors_transform, monitors_basis
 from ..drive import call
 from ..shard import Workload
 from ._common import arm_light
@@ -110,9 +110,20 @@ def w_amuset(ctx, rng, idx):
                     'return_option': opt})
 
 
+def w_failpoint(ctx, rng, idx):
+    """the same workload with the default SVD driver failing (LinAlgError injected at the LAPACK boundary before the input is touched):
+    utils.truncated_svd must take its gesvd fallback and every clause must still hold"""
+    probe.S.failpoint_svd = True
+    try:
+        w_amuset(ctx, rng, idx + 10 ** 6)
+    finally:
+        probe.S.failpoint_svd = False
+
+
 WORKLOADS = [
     Workload('product', w_product, 200, 4000),
     Workload('amuset', w_amuset, 160, 3000),
+    Workload('failpoint', w_failpoint, 30, 500),
 ]
 REQUIRED = ['C19|tgedmd.generator_on_product:equals_generator_applied_to_product', 'C19|tgedmd.generator_on_product_reversible:equals_gradient_of_product_dot_sigma_column',
             'C19|tgedmd.amuset_hosvd:eigenvalues_equal_dense_projected_generator']
